@@ -22,6 +22,9 @@ pub struct Cons {
     pub marker: bool,
     pub outer_marker: bool,
     pub all_except: bool,
+    /// every operand is written in parentheses of its own; a marker then follows the last parenthesis and
+    /// belongs to the element set: `((0..5) | (10..20), ...)`
+    pub paren: bool,
 }
 #[derive(Clone, Copy, Debug, PartialEq, Eq, PartialOrd, Ord)]
 pub enum Ctx {
@@ -29,6 +32,8 @@ pub enum Ctx {
     IntComp,
     IntRef,
     IntValueRef,
+    /// exactly one of the written values is a value reference, the others are literals
+    IntOneRef,
     IntNamedRef,
     IntNamedComp,
     OctetComp,
@@ -47,11 +52,11 @@ pub struct Case {
 
 impl Ctx {
     fn is_size(self) -> bool {
-        !matches!(self, Ctx::IntAssign | Ctx::IntComp | Ctx::IntRef | Ctx::IntValueRef | Ctx::IntNamedRef | Ctx::IntNamedComp)
+        !matches!(self, Ctx::IntAssign | Ctx::IntComp | Ctx::IntRef | Ctx::IntValueRef | Ctx::IntOneRef | Ctx::IntNamedRef | Ctx::IntNamedComp)
     }
     /// the `signed` argument the generator passes to format_range_annotations for this context
     fn signed_arg(self) -> bool {
-        matches!(self, Ctx::IntAssign | Ctx::IntRef | Ctx::IntNamedRef | Ctx::OctetAssign | Ctx::IntComp | Ctx::IntValueRef)
+        matches!(self, Ctx::IntAssign | Ctx::IntRef | Ctx::IntNamedRef | Ctx::OctetAssign | Ctx::IntComp | Ctx::IntValueRef | Ctx::IntOneRef)
     }
     fn name(self) -> &'static str {
         match self {
@@ -59,6 +64,7 @@ impl Ctx {
             Ctx::IntComp => "INTEGER component",
             Ctx::IntRef => "constrained type reference",
             Ctx::IntValueRef => "bounds given by value references",
+            Ctx::IntOneRef => "one bound / operand given by a value reference, the others literal (type assignment)",
             Ctx::IntNamedRef => "bounds given by named numbers of the referenced type (assignment)",
             Ctx::IntNamedComp => "bounds given by named numbers of the referenced type (component)",
             Ctx::OctetComp => "OCTET STRING SIZE component",
@@ -76,6 +82,35 @@ fn val_name(v: i128) -> String {
 
 fn named(v: i128) -> String {
     if v < 0 { format!("nm{}", -v) } else { format!("np{v}") }
+}
+
+/// the constraint text with its (i mod n)-th numeric literal replaced by the value reference that stands for it
+fn one_ref(ct: &str, i: usize) -> String {
+    let cs: Vec<char> = ct.chars().collect();
+    let mut spans: Vec<(usize, usize)> = Vec::new();
+    let mut k = 0;
+    while k < cs.len() {
+        let start_ok = k == 0 || !(cs[k - 1].is_alphanumeric() || cs[k - 1] == '-' || cs[k - 1] == '_');
+        if start_ok && (cs[k].is_ascii_digit() || (cs[k] == '-' && k + 1 < cs.len() && cs[k + 1].is_ascii_digit())) {
+            let mut j = k + 1;
+            while j < cs.len() && cs[j].is_ascii_digit() {
+                j += 1;
+            }
+            spans.push((k, j));
+            k = j;
+        } else {
+            k += 1;
+        }
+    }
+    if spans.is_empty() {
+        return ct.to_string();
+    }
+    let (a, b) = spans[i % spans.len()];
+    let lit: String = cs[a..b].iter().collect();
+    match lit.parse::<i128>() {
+        Ok(v) if POINTS.contains(&v) => format!("{}{}{}", cs[..a].iter().collect::<String>(), val_name(v), cs[b..].iter().collect::<String>()),
+        _ => ct.to_string(),
+    }
 }
 
 fn elem_asn(e: &Elem, byref: u8) -> String {
@@ -98,7 +133,8 @@ impl Cons {
         if self.all_except {
             s.push_str("ALL EXCEPT ");
         }
-        s.push_str(&elem_asn(&self.first, byref));
+        let wrap = |t: String| if self.paren { format!("({t})") } else { t };
+        s.push_str(&wrap(elem_asn(&self.first, byref)));
         for (o, e) in &self.rest {
             s.push_str(match (o, words) {
                 (Op::Inter, false) => " ^ ",
@@ -107,7 +143,7 @@ impl Cons {
                 (Op::Union, true) => " UNION ",
                 (Op::Except, _) => " EXCEPT ",
             });
-            s.push_str(&elem_asn(e, byref));
+            s.push_str(&wrap(elem_asn(e, byref)));
         }
         if self.marker {
             s.push_str(", ...");
@@ -117,8 +153,8 @@ impl Cons {
     fn sx(&self, is_size: bool) -> String {
         format!(
             "( chain {} {} {} {} {} {} )",
-            sx_bool(self.marker),
-            sx_bool(self.outer_marker),
+            sx_bool(self.marker && !self.paren),
+            sx_bool(self.outer_marker || (self.marker && self.paren)),
             sx_bool(is_size),
             sx_bool(self.all_except),
             elem_sx(&self.first),
@@ -160,6 +196,7 @@ impl Case {
         let ct = self.constraint_text(match self.ctx { Ctx::IntValueRef => 1, Ctx::IntNamedRef | Ctx::IntNamedComp => 2, _ => 0 });
         match self.ctx {
             Ctx::IntAssign => format!("A{i} ::= INTEGER {ct}"),
+            Ctx::IntOneRef => format!("A{i} ::= INTEGER {}", one_ref(&ct, i)),
             Ctx::IntComp | Ctx::IntValueRef => format!("S{i} ::= SEQUENCE {{ f INTEGER {ct} }}"),
             Ctx::IntRef => format!("R{i} ::= Base-Int {ct}"),
             Ctx::IntNamedRef => format!("R{i} ::= Zed-Base {ct}"),
@@ -205,7 +242,7 @@ fn elems(size: bool) -> Vec<Elem> {
 pub fn gen_cases(cfg: &RunCfg) -> Vec<Case> {
     let mut cases: Vec<Case> = Vec::new();
     let ops = [Op::Union, Op::Inter, Op::Except];
-    let vctx = [Ctx::IntAssign, Ctx::IntComp, Ctx::IntRef, Ctx::IntValueRef, Ctx::IntNamedRef, Ctx::IntNamedComp];
+    let vctx = [Ctx::IntAssign, Ctx::IntComp, Ctx::IntRef, Ctx::IntValueRef, Ctx::IntNamedRef, Ctx::IntNamedComp, Ctx::IntOneRef];
     let sctx = [Ctx::OctetComp, Ctx::BitComp, Ctx::Ia5Comp, Ctx::SeqOfComp, Ctx::OctetAssign];
     let mut k = 0usize;
     for size in [false, true] {
@@ -215,13 +252,13 @@ pub fn gen_cases(cfg: &RunCfg) -> Vec<Case> {
         for e in &es {
             for marker in [false, true] {
                 for c in if size { sctx.to_vec() } else { vctx.to_vec() } {
-                    cases.push(Case { ctx: c, cons: vec![Cons { first: e.clone(), rest: vec![], marker, outer_marker: false, all_except: false }], words: false });
+                    cases.push(Case { ctx: c, cons: vec![Cons { first: e.clone(), rest: vec![], marker, outer_marker: false, all_except: false, paren: false }], words: false });
                 }
             }
             if !size {
-                cases.push(Case { ctx: Ctx::IntComp, cons: vec![Cons { first: e.clone(), rest: vec![], marker: false, outer_marker: false, all_except: true }], words: false });
+                cases.push(Case { ctx: Ctx::IntComp, cons: vec![Cons { first: e.clone(), rest: vec![], marker: false, outer_marker: false, all_except: true, paren: false }], words: false });
             } else {
-                cases.push(Case { ctx: Ctx::OctetComp, cons: vec![Cons { first: e.clone(), rest: vec![], marker: false, outer_marker: true, all_except: false }], words: false });
+                cases.push(Case { ctx: Ctx::OctetComp, cons: vec![Cons { first: e.clone(), rest: vec![], marker: false, outer_marker: true, all_except: false, paren: false }], words: false });
             }
         }
         // 2 operands: full slice
@@ -231,7 +268,7 @@ pub fn gen_cases(cfg: &RunCfg) -> Vec<Case> {
                     k += 1;
                     cases.push(Case {
                         ctx: ctx(k),
-                        cons: vec![Cons { first: a.clone(), rest: vec![(o, b.clone())], marker: k % 3 == 0, outer_marker: false, all_except: false }],
+                        cons: vec![Cons { first: a.clone(), rest: vec![(o, b.clone())], marker: k % 3 == 0, outer_marker: false, all_except: false, paren: !size && k % 6 == 0 }],
                         words: k % 7 == 0,
                     });
                 }
@@ -252,7 +289,8 @@ pub fn gen_cases(cfg: &RunCfg) -> Vec<Case> {
             // mostly-legal: bias towards operands around a common anchor
             let first = rng.pick(&es).clone();
             let rest: Vec<(Op, Elem)> = (0..nops).map(|_| (*rng.pick(&ops), rng.pick(&es).clone())).collect();
-            cons.push(Cons { first, rest, marker: rng.chance(1, 4), outer_marker: size && rng.chance(1, 10), all_except: false });
+            let marker = rng.chance(1, 4);
+            cons.push(Cons { first, rest, marker, outer_marker: size && rng.chance(1, 10), all_except: false, paren: !size && marker && rng.chance(1, 3) });
         }
         cases.push(Case { ctx, cons, words: rng.chance(1, 8) });
     }
@@ -301,8 +339,8 @@ fn parse_attr(a: &proj::Attrs, ty: &str) -> Obs {
 
 fn observe(m: &proj::ModuleFacts, c: &Case, i: usize) -> Result<Obs, String> {
     match c.ctx {
-        Ctx::IntAssign | Ctx::IntRef | Ctx::IntNamedRef | Ctx::OctetAssign => {
-            let n = match c.ctx { Ctx::IntAssign => format!("A{i}"), Ctx::IntRef | Ctx::IntNamedRef => format!("R{i}"), _ => format!("O{i}") };
+        Ctx::IntAssign | Ctx::IntOneRef | Ctx::IntRef | Ctx::IntNamedRef | Ctx::OctetAssign => {
+            let n = match c.ctx { Ctx::IntAssign | Ctx::IntOneRef => format!("A{i}"), Ctx::IntRef | Ctx::IntNamedRef => format!("R{i}"), _ => format!("O{i}") };
             match m.item(&n) {
                 Some(it) => match &it.kind {
                     ItemKind::Struct { fields, tuple: true } if fields.len() == 1 => Ok(parse_attr(&it.attrs, &fields[0].ty)),
@@ -581,6 +619,7 @@ fn case_from_json(v: &serde_json::Value) -> Option<Case> {
         "IntComp" => Ctx::IntComp,
         "IntRef" => Ctx::IntRef,
         "IntValueRef" => Ctx::IntValueRef,
+        "IntOneRef" => Ctx::IntOneRef,
         "IntNamedRef" => Ctx::IntNamedRef,
         "IntNamedComp" => Ctx::IntNamedComp,
         "OctetComp" => Ctx::OctetComp,
@@ -619,7 +658,10 @@ fn case_from_json(v: &serde_json::Value) -> Option<Case> {
             let o = match atom(&p[0])?.as_str() { "inter" => Op::Inter, "union" => Op::Union, _ => Op::Except };
             rest.push((o, elem(&p[1])?));
         }
-        cons.push(Cons { first, rest, marker: atom(&l[1])? == "t", outer_marker: atom(&l[2])? == "t", all_except: atom(&l[4])? == "t" });
+        let (m, om) = (atom(&l[1])? == "t", atom(&l[2])? == "t");
+        // a set-level marker on a value constraint is the parenthesised spelling
+        let paren = om && !ctx.is_size();
+        cons.push(Cons { first, rest, marker: m || paren, outer_marker: om && !paren, all_except: atom(&l[4])? == "t", paren });
     }
     Some(Case { ctx, cons, words: v["words"].as_bool().unwrap_or(false) })
 }
